@@ -12,15 +12,19 @@ func c11Svc(extra map[string]any) map[string]any {
 	return s
 }
 
+// the name of the service under test: an ordinary one, or one that starts like an extension key (a valid service name)
+var c11Name = "s"
+
 func VerifC11Defaults() {
 	scen := vrtChoice("scenario", 15)
+	c11Name = []string{"s", "x-s"}[vrtChoice("serviceName", 2)]
 	v := "x" + vrtString("v", vrtParam("VL", 1), "ab")
 	other := map[string]any{"image": "i"}
 	data := map[string]any{"image": "i"}
 	var implicit, explicit, different map[string]any
 	var diffCheck func(m map[string]any) bool
 	mk := func(svc map[string]any, top map[string]any) map[string]any {
-		d := map[string]any{"services": map[string]any{"s": svc, "o": other, "data": data}}
+		d := map[string]any{"services": map[string]any{c11Name: svc, "o": other, "data": data}}
 		for k, e := range top {
 			d[k] = e
 		}
@@ -33,8 +37,8 @@ func VerifC11Defaults() {
 		other["networks"] = map[string]any{"default": nil}
 		different = mk(c11Svc(map[string]any{"network_mode": "host"}), nil)
 		diffCheck = func(m map[string]any) bool {
-			_, has := tcSvc(m, "s")["networks"]
-			return !has && tcSvc(m, "s")["network_mode"] == any("host")
+			_, has := tcSvc(m, c11Name)["networks"]
+			return !has && tcSvc(m, c11Name)["network_mode"] == any("host")
 		}
 	case 1: // resource names
 		kind := []string{"networks", "volumes", "secrets", "configs"}[vrtChoice("kind", 4)]
@@ -109,7 +113,7 @@ func VerifC11Defaults() {
 		df["depends_on"] = map[string]any{"data": map[string]any{"condition": "service_healthy", "required": false}}
 		different = mk(c11Svc(df), nil)
 		diffCheck = func(m map[string]any) bool {
-			d, _ := tcSvc(m, "s")["depends_on"].(map[string]any)["data"].(map[string]any)
+			d, _ := tcSvc(m, c11Name)["depends_on"].(map[string]any)["data"].(map[string]any)
 			_, hasRestart := d["restart"]
 			return d["condition"] == any("service_healthy") && d["required"] == any(false) && !hasRestart
 		}
@@ -118,7 +122,7 @@ func VerifC11Defaults() {
 		explicit = mk(c11Svc(map[string]any{"build": map[string]any{"target": "t", "context": ".", "dockerfile": "Dockerfile"}}), nil)
 		different = mk(c11Svc(map[string]any{"build": map[string]any{"target": "t", "context": "/c" + v, "dockerfile": "D" + v}}), nil)
 		diffCheck = func(m map[string]any) bool {
-			b, _ := tcSvc(m, "s")["build"].(map[string]any)
+			b, _ := tcSvc(m, c11Name)["build"].(map[string]any)
 			return b["context"] == any("/c"+v) && b["dockerfile"] == any("D"+v)
 		}
 	case 5: // dockerfile_inline: no default dockerfile
@@ -130,7 +134,7 @@ func VerifC11Defaults() {
 		explicit = mk(c11Svc(map[string]any{"ports": []any{map[string]any{"target": 80, "protocol": "tcp", "mode": "ingress"}}}), nil)
 		different = mk(c11Svc(map[string]any{"ports": []any{map[string]any{"target": 80, "protocol": "udp", "mode": "host"}}}), nil)
 		diffCheck = func(m map[string]any) bool {
-			l, _ := tcSvc(m, "s")["ports"].([]any)
+			l, _ := tcSvc(m, c11Name)["ports"].([]any)
 			if len(l) != 1 {
 				return false
 			}
@@ -143,7 +147,7 @@ func VerifC11Defaults() {
 		explicit = mk(c11Svc(map[string]any{"secrets": []any{map[string]any{"source": "sec", "target": "/run/secrets/sec"}}}), top)
 		different = mk(c11Svc(map[string]any{"secrets": []any{map[string]any{"source": "sec", "target": "/t" + v}}}), top)
 		diffCheck = func(m map[string]any) bool {
-			l, _ := tcSvc(m, "s")["secrets"].([]any)
+			l, _ := tcSvc(m, c11Name)["secrets"].([]any)
 			if len(l) != 1 {
 				return false
 			}
@@ -155,7 +159,7 @@ func VerifC11Defaults() {
 		explicit = mk(c11Svc(map[string]any{"depends_on": map[string]any{"o": map[string]any{"condition": "service_started", "required": true}}}), nil)
 		different = mk(c11Svc(map[string]any{"depends_on": map[string]any{"o": map[string]any{"condition": "service_healthy", "required": false}}}), nil)
 		diffCheck = func(m map[string]any) bool {
-			d, _ := tcSvc(m, "s")["depends_on"].(map[string]any)["o"].(map[string]any)
+			d, _ := tcSvc(m, c11Name)["depends_on"].(map[string]any)["o"].(map[string]any)
 			return d["condition"] == any("service_healthy") && d["required"] == any(false)
 		}
 	case 9: // env_file required
@@ -163,7 +167,7 @@ func VerifC11Defaults() {
 		explicit = mk(c11Svc(map[string]any{"env_file": []any{map[string]any{"path": "/e" + v, "required": true}}}), nil)
 		different = mk(c11Svc(map[string]any{"env_file": []any{map[string]any{"path": "/e" + v, "required": false}}}), nil)
 		diffCheck = func(m map[string]any) bool {
-			l, _ := tcSvc(m, "s")["env_file"].([]any)
+			l, _ := tcSvc(m, c11Name)["env_file"].([]any)
 			if len(l) != 1 {
 				return false
 			}
@@ -182,7 +186,7 @@ func VerifC11Defaults() {
 		explicit = mk(c11Svc(dev(map[string]any{"count": "all"})), nil)
 		different = mk(c11Svc(dev(map[string]any{"count": 2})), nil)
 		diffCheck = func(m map[string]any) bool {
-			dp, _ := tcSvc(m, "s")["deploy"].(map[string]any)
+			dp, _ := tcSvc(m, c11Name)["deploy"].(map[string]any)
 			rs, _ := dp["resources"].(map[string]any)
 			rv, _ := rs["reservations"].(map[string]any)
 			l, _ := rv["devices"].([]any)
@@ -254,7 +258,7 @@ func VerifC11Defaults() {
 		d["mode"] = "host"
 		different = mk(c11Svc(map[string]any{"ports": []any{d}}), nil)
 		diffCheck = func(m map[string]any) bool {
-			l, _ := tcSvc(m, "s")["ports"].([]any)
+			l, _ := tcSvc(m, c11Name)["ports"].([]any)
 			if len(l) != 1 {
 				return false
 			}
@@ -268,7 +272,7 @@ func VerifC11Defaults() {
 	// origin of the attribute: main file, or an override file on top of a minimal main file
 	load := func(doc map[string]any) (map[string]any, error) {
 		if vrtParam("ORIGIN", 0) == 1 {
-			base := map[string]any{"services": map[string]any{"s": map[string]any{"image": "i"}}}
+			base := map[string]any{"services": map[string]any{c11Name: map[string]any{"image": "i"}}}
 			return tcLoad(nil, nil, base, doc)
 		}
 		return tcLoad(nil, nil, doc)
